@@ -274,6 +274,9 @@ class Circuit:
                 g.control = [mapping[ind] for ind in g.control]
 
         self._qubit_indices = set(range(len(qubits_in_use)))
+        # A fixed-width circuit stays fixed-width, at its new (trimmed) width
+        if self._qubits_simulated:
+            self._qubits_simulated = len(qubits_in_use) or None
         return self
 
     def reindex_qubits(self, new_indices):
@@ -293,6 +296,9 @@ class Circuit:
                 g.control = [mapping[ind] for ind in g.control]
 
         self._qubit_indices = set(new_indices)
+        # A fixed-width circuit stays fixed-width, wide enough for the new indices
+        if self._qubits_simulated:
+            self._qubits_simulated = max(new_indices) + 1
 
     def get_entangled_indices(self):
         """Return a list of unentangled sets of qubit indices. Each set includes indices
